@@ -178,7 +178,7 @@ class Gauleg(Entry):
             if round == 0:
                 nmax = 40 if q else 200
                 for n in range(1, nmax + 1):
-                    cs.append({"a": hx(-1.0), "b": hx(1.0), "n": n, "mom": 2 * n if n <= (6 if q else 12) else 0, "family": "unit 1..%d" % nmax})
+                    cs.append({"a": hx(-1.0), "b": hx(1.0), "n": n, "mom": 2 * n if (n <= 6 or n in (11, 12)) else 0, "family": "unit 1..%d" % nmax})
                 for n in (0, -1, -7):
                     cs.append({"a": hx(-1.0), "b": hx(1.0), "n": n, "mom": 0, "family": "rejected npts<=0"})
                 for n in ([1, 2, 3, 5, 8, 21, 40] if q else [1, 2, 5, 16, 31, 127, 200]):
@@ -207,7 +207,7 @@ class Gauleg(Entry):
                 for af in ("pyint", "np64", "np32", "zerod", "bool"):
                     for n in ((1,) if af == "bool" else (1, 4, 9)):
                         cs.append({"a": hx(-3.0), "b": hx(5.0), "n": n, "mom": 0, "argform": af, "family": "argform:" + af})
-            for a, b, kind in intervals(r, ctx.n(40, 80) if round == 0 else 40):
+            for a, b, kind in intervals(r, ctx.n(40, 50) if round == 0 else 40):
                 n = r.choice([r.randrange(1, 12), r.randrange(1, 61), r.randrange(1, 61 if q else 201)])
                 cs.append({"a": hx(a), "b": hx(b), "n": n, "mom": 0, "family": "interval:" + kind})
         elif self.mode == "moments":
@@ -216,7 +216,7 @@ class Gauleg(Entry):
                 ns = list(range(nmax, 12, -1))
                 if q:   # quick: every other n (all n <= 12 are certified by the light entry; thorough: all);
                     #       paired large/small so that the shards of 2 are balanced
-                    ns = [n for n in ns if n in (13, 14, 16, 18, 20, 22, 24, 26, 28, 29, 30)]   # n <= 12: theorem C17_small_rules_exact
+                    ns = [n for n in ns if n in (13, 14, 16, 18, 20, 22, 24, 26, 28, 29, 30)]   # n <= 10: theorem C17_small_rules_exact; 11, 12: light entry
                     k = (len(ns) + 1) // 2
                     ns = [ns[i + j * k] for i in range(k) for j in range(2) if i + j * k < len(ns)]
                 else:   # thorough: all n <= 32, then samples up to 64 (128 moments)
@@ -224,6 +224,11 @@ class Gauleg(Entry):
                 for n in ns:
                     cs.append({"a": hx(-1.0), "b": hx(1.0), "n": n, "mom": 2 * n, "family": "moments 13..%d" % nmax})
         else:
+            if round == 0 and q:
+                # quick too: rules far beyond the n where per-root effects could hide (weight sum and reference rule
+                # to 1e-9 (b-a); bit-exact model)
+                for n in (500, 1000):
+                    cs.append({"a": hx(-1.0), "b": hx(1.0), "n": n, "mom": 0, "family": "samples to 2000"})
             if round == 0 and not q:
                 for n in (2000, 777, 333):
                     cs.append({"a": hx(-1.0), "b": hx(1.0), "n": n, "mom": 0, "family": "samples to 2000"})
@@ -300,7 +305,7 @@ class GaulegMP(Gauleg):
     def cases(self, ctx, round=0):
         if round != 0 or ctx.quick():
             return []
-        ns = list(range(1, 51)) + [64, 100, 128, 200]
+        ns = list(range(1, 27)) + [64, 100, 128, 200]
         mp_rules(ns)
         r = ctx.rng
         cs = []
@@ -338,7 +343,7 @@ class Poly(Entry):
         cs = []
         ns = list(range(1, 31)) if round == 0 else [r.randrange(1, 31) for _ in range(10)]
         if round == 0 and ctx.quick():
-            ns = [n for n in ns if n <= 10 or n % 2 == 0 or n == 29]
+            ns = [n for n in ns if n <= 8 or n % 3 == 0 or n in (20, 29)]
         per = 2
         for n in ns:
             for j in range(per):
@@ -366,8 +371,8 @@ class Poly(Entry):
         if round == 0:
             # narrow / wide intervals: the polynomial is given in the variable x itself, low degree so that x^k stays
             # finite; the bound 1e-9 (b-a) max|p| is relative to the width
-            for k in ([2, 6, 12] if ctx.quick() else [1, 2, 3, 4, 5, 6, 8, 10, 12, 14]):
-                for n in ((2, 6) if ctx.quick() else (2, 3, 6)):
+            for k in ([2, 6, 12] if ctx.quick() else [1, 2, 4, 6, 8, 10, 12, 14]):
+                for n in (2, 6):
                     w = 10.0 ** (-k)
                     a = r.choice([0.0, 1.0, -2.5])
                     co = [r.uniform(-1, 1) for _ in range(min(2 * n, 4))]
@@ -556,7 +561,7 @@ class Func(Entry):
         cs = []
         names = sorted(_funcs())
         q = ctx.quick()
-        for a, b, kind in mild_intervals(r, ctx.n(50, 90) if round == 0 else 40):
+        for a, b, kind in mild_intervals(r, ctx.n(45, 60) if round == 0 else 40):
             n = r.choice([r.randrange(1, 10), r.randrange(1, 41), r.randrange(1, 61 if q else 201),
                           r.choice([7, 8, 9, 127, 128, 129, 130, 136, 137] if not q else [7, 8, 9, 15, 16, 17, 128, 129])])
             cs.append({"x1": hx(a), "x2": hx(b), "n": n, "fn": r.choice(names),
@@ -695,7 +700,7 @@ class Data(Entry):
     def cases(self, ctx, round=0):
         r = ctx.rng
         cs = []
-        for _ in range(ctx.n(30, 70) if round == 0 else 30):
+        for _ in range(ctx.n(24, 45) if round == 0 else 30):
             npt = r.choice([2, 3, r.randrange(2, 12), r.randrange(2, 60)])
             spacing = r.choice(["even", "uneven", "clustered", "negative"])
             x0 = r.uniform(-10, 10)
@@ -749,6 +754,28 @@ class Data(Entry):
             ys = [r.uniform(-5, 5) for _x in xs]
             cs.append({"xv": hxl(xs), "yv": hxl(ys), "n": r.choice([2, 3, 5, 8, 13, 21]),
                        "via": r.choice(["integrate", "integrate_data", "qgauss"]), "family": fam})
+        # tables far from the origin (Julian days, unix times, negative offsets): the interval is tiny relative to
+        # its distance from 0, so any formulation that forms slope*x or an intercept cancels catastrophically; the
+        # ordinates are rough (no smoothness helps).  Judged at the abscissae the code used, exact rational chord.
+        offs = [(2.4e6, 1e-5), (1.7e9, 1e-3), (-1e6, 1e-5), (2451545.0, 1e-3), (1.0e12, 0.5), (-3.0e4, 1e-7)]
+        for i in range(ctx.n(8, 30) if round == 0 else 4):
+            x0, h = offs[i % len(offs)]
+            npt = r.choice([2, 3, 6, 11, 24])
+            xs = [x0]
+            for _i in range(npt - 1):
+                xs.append(xs[-1] + h * r.choice([1.0, 1.0, 2.0, 0.5, 7.0]) * r.uniform(0.8, 1.2))
+            xs = sorted(set(xs))
+            if len(xs) < 2:
+                continue
+            yk = r.choice(["random", "random", "steps", "line"])
+            if yk == "random":
+                ys = [r.uniform(-5, 5) for _x in xs]
+            elif yk == "steps":
+                ys = [float(r.randrange(-2, 3)) for _x in xs]
+            else:
+                ys = [1.0 + 0.37 * k for k in range(len(xs))]
+            cs.append({"xv": hxl(xs), "yv": hxl(ys), "n": r.choice([1, 2, 3, 5, 8, 13, 21]),
+                       "via": r.choice(["integrate", "integrate_data", "qgauss"]), "family": "data:offset %g/%g" % (x0, h)})
         cs += self.form_cases(ctx, round)
         return _with_decoys(cs)
 
@@ -848,17 +875,32 @@ class Data(Entry):
                     xd[1:-1] = (xd[1:-1] + xd[2:]) / 2.0
                 ig.QGauss(n).integrate(xd, yd)
                 ig.qgauss(xd, yd * 2.0 + 1.0, n)
-            if c["via"] == "integrate":
-                res = ig.QGauss(n).integrate(xv, yv)
-            elif c["via"] == "integrate_data":
-                res = ig.QGauss().integrate_data(xv, yv, npts=n)
-            elif c["via"] == "integrate_pos":
-                res = ig.QGauss().integrate(xv, yv, n)
-            else:
-                res = ig.qgauss(xv, yv, n)
+            # observe the abscissae the integrator hands to the interpolation (esutil.stat.interplin is looked up
+            # through the module at call time): the checker judges the result at THESE abscissae
+            import esutil.stat as st
+            orig_interplin = st.interplin
+            seen = []
+
+            def spy(vin, xin, uin):
+                seen.append(np.array(uin, dtype="f8", copy=True))
+                return orig_interplin(vin, xin, uin)
+            st.interplin = spy
+            try:
+                if c["via"] == "integrate":
+                    res = ig.QGauss(n).integrate(xv, yv)
+                elif c["via"] == "integrate_data":
+                    res = ig.QGauss().integrate_data(xv, yv, npts=n)
+                elif c["via"] == "integrate_pos":
+                    res = ig.QGauss().integrate(xv, yv, n)
+                else:
+                    res = ig.qgauss(xv, yv, n)
+            finally:
+                st.interplin = orig_interplin
             if (snap(xv), snap(yv)) != keep:
                 raise RuntimeError("the integrator modified its input tables")
-            return {"zs": hxl(zs), "ws": hxl(ws), "res": hx(res)}
+            if len(seen) != 1 or seen[0].ndim != 1:
+                raise RuntimeError("the data integrator did not call stat.interplin exactly once on a 1-d array")
+            return {"zs": hxl(zs), "ws": hxl(ws), "xi": hxl(seen[0]), "res": hx(res)}
         return core.guarded(run)
 
     def term(self, c, out):
@@ -866,7 +908,8 @@ class Data(Entry):
         if out[0] != "ok":
             return "v_data_k %s [] [] %s %s (Err %s)" % (k, cfl(c["xv"]), cfl(c["yv"]), out[1])
         o = out[1]
-        return "v_data_k %s %s %s %s %s (Ok %s)" % (k, cfl(o["zs"]), cfl(o["ws"]), cfl(c["xv"]), cfl(c["yv"]), cf(o["res"]))
+        return "v_data_at %s %s %s %s %s %s (Ok %s)" % (k, cfl(o["zs"]), cfl(o["ws"]), cfl(c["xv"]), cfl(c["yv"]), cfl(o["xi"]),
+                                                       cf(o["res"]))
 
     def nontrivial(self, c, out):
         return c["n"] >= 2 and len(c["xv"]) >= 3
@@ -893,7 +936,7 @@ class Func2(Entry):
             shapes += [(1, 1), (1, 3), (4, 1), (3, 4), (4, 3), (2, 2), (5, 5), (7, 2), (2, 9), (8, 16)]
             if not ctx.quick():
                 shapes += [(30, 30), (24, 31), (1, 40)]
-        for _ in range(ctx.n(18, 35) if round == 0 else 30):
+        for _ in range(ctx.n(12, 30) if round == 0 else 30):
             shapes.append((r.randrange(1, nmax + 1), r.randrange(1, nmax + 1)))
         for nx, ny in shapes:
             (a, b, k1), (c_, d, k2) = mild_intervals(r, 2)
@@ -1017,7 +1060,7 @@ class History(Entry):
                                    "styles": [r.choice(["kw", "pos"]) if n is not None else r.choice(["kw", "omit"]) for n in ops],
                                    "sets": [r.choice([0, 1, 2, 3]) for _n in ops],
                                    "family": "history:return %s/%s" % ("".join(x or "-" for x in pat), kp)})
-        for _ in range(ctx.n(45, 120) if round == 0 else 30):
+        for _ in range(ctx.n(40, 80) if round == 0 else 30):
             pool = [r.randrange(1, 41) for _i in range(r.randrange(1, 4))]
             n0 = r.choice([None, r.choice(pool)])
             ops = [r.choice([None, None] + pool + [r.randrange(1, 41)]) for _i in range(r.randrange(1, 9))]
@@ -1405,8 +1448,8 @@ def translation_step(ctx):
 
 def small_table_step(ctx):
     """C17_small_rules_exact is stated for the start values of SmallRules.cos_table: re-measure libm's cos at the
-    model's arguments for n = 1..12 and compare bit for bit with the table (inside Coq)."""
-    t = "[" + "; ".join("(%s, %s)" % (cz(n), ccos(n)) for n in range(1, 13)) + "]"
+    model's arguments for n = 1..10 and compare bit for bit with the table (inside Coq)."""
+    t = "[" + "; ".join("(%s, %s)" % (cz(n), ccos(n)) for n in range(1, 11)) + "]"
     try:
         vals = core.coq_eval(os.path.join(ctx.work, "smalltab"),
                              PRE + "From EsVerif.C17 Require Import SmallRules.\n", ["v_small_table cos_table %s" % t], tag="smalltab")
@@ -1414,7 +1457,7 @@ def small_table_step(ctx):
         detail = "" if ok else "verdict %r" % (vals,)
     except core.CoqEvalError as e:
         ok, detail = False, str(e)[-400:]
-    ctx.obligation("libm cos at the model's start-value arguments equals SmallRules.cos_table (n = 1..12): "
+    ctx.obligation("libm cos at the model's start-value arguments equals SmallRules.cos_table (n = 1..10): "
                    "C17_small_rules_exact applies to this machine", ok, detail)
     if not ok:
         ctx.violation("libm's cos differs from the start values C17_small_rules_exact is stated for (%s)" % detail,
